@@ -186,8 +186,15 @@ def replay(path):
         rep = c12.replay_cex(d["cond"], cex, d["n"])
         print(rep)
         return 1 if rep is True else 0
+    if d.get("kind") == "groupsym":
+        from gsv import groupsym
+        bad = groupsym.replay(d)
+        print("reproduces:", bad)
+        return 1 if bad else 0
     if d.get("kind") == "fgsym":
         from gsv import fgsym
+        if d.get("variant"):
+            fgsym.set_variant(d["variant"])
         return 1 if fgsym.reproduces(d["name"], d["vals"], d["n"], d.get("sep_na")) else 0
     if d.get("kind") == "fg":
         bad, pi = GC.fg_order_dependent(d["w"])
